@@ -162,6 +162,26 @@ func vMsgWithinLimits(L vLimits, minDeposit int64, msg *dtypes.MsgCreateDeployme
 
 type vMonC19 struct {
 	res *vs.Result
+	// minDep: the network's minimum deposit after a parameter change (0: the
+	// genesis value of the profile)
+	minDep int64
+}
+
+func (m *vMonC19) min(h *vHist) int64 {
+	if m.minDep > 0 {
+		return m.minDep
+	}
+	return h.c.profile.DepMinDeposit
+}
+
+func (m *vMonC19) OnGov(h *vHist, subspace, key, value string) {
+	if subspace == dtypes.ModuleName && key == "DeploymentMinDeposit" {
+		var c sdk.Coin
+		if err := h.c.app.LegacyAmino().UnmarshalJSON([]byte(value), &c); err == nil && c.Amount.IsInt64() {
+			m.minDep = c.Amount.Int64()
+			m.res.Count("minimum_deposit_changed_by_the_network", 1)
+		}
+	}
 }
 
 func (m *vMonC19) AfterTx(h *vHist, o *vTxObs) {
@@ -169,7 +189,7 @@ func (m *vMonC19) AfterTx(h *vHist, o *vTxObs) {
 	kind := vKindOf(o)
 	if len(o.Msgs) == 1 {
 		if msg, ok := o.Msgs[0].(*dtypes.MsgCreateDeployment); ok {
-			bad := vMsgWithinLimits(L, h.c.profile.DepMinDeposit, msg)
+			bad := vMsgWithinLimits(L, m.min(h), msg)
 			m.res.Count("create_deployment_seen", 1)
 			if o.OK && len(bad) > 0 {
 				h.Violation("admitted-only-within-limits", strings.Join(bad, "+"),
@@ -189,7 +209,7 @@ func (m *vMonC19) AfterTx(h *vHist, o *vTxObs) {
 				}
 			} else {
 				m.res.Count("admitted", 1)
-				if a, ok := o.Post.Accts[vDepAcctKey(msg.ID)]; !ok || a.Balance.Amount.LT(sdk.NewInt(h.c.profile.DepMinDeposit)) {
+				if a, ok := o.Post.Accts[vDepAcctKey(msg.ID)]; !ok || a.Balance.Amount.LT(sdk.NewInt(m.min(h))) {
 					h.Violation("carries-minimum-deposit", "", fmt.Sprintf("deployment %s admitted with escrow balance %v", vDepKey(msg.ID), a.Balance))
 				}
 			}
@@ -551,12 +571,65 @@ func vC19Sweep(t *testing.T, res *vs.Result) {
 	})
 }
 
+// vC19ParamChanges: the minimum deposit is a network parameter; after the
+// network changed it (accepted parameter-change proposal), create-deployment
+// is judged against the new value - also by a node that had read the old one,
+// and by a node restarted in between.
+func vC19ParamChanges(res *vs.Result) {
+	seed := vs.Seed()
+	n := vs.Scale(24, 400)
+	vs.Parallel(n, 8, func(s int) {
+		rng := vs.NewRand(seed, uint64(195000+s))
+		prof := vProfileDefault
+		if s%2 == 1 {
+			prof = vProfileSmall
+		}
+		mon := &vMonC19{res: res}
+		vRunHist(res, fmt.Sprintf("seed=%d/param-change=%d/%s", seed, s, prof.Name), seed*1000003, prof, rng, []vMonitor{mon}, func(h *vHist) {
+			tnt := h.actor("tenant", s%3)
+			dseq := uint64(5000)
+			probe := func(note string, dep int64) {
+				dseq++
+				msg := vC19Base(tnt.Bech, dseq, dep)
+				h.DoNote("param: "+note, rng.Intn(3), tnt, msg)
+			}
+			cur := prof.DepMinDeposit
+			probe("min before any change", cur)
+			probe("min-1 before any change", cur-1)
+			for round := 0; round < 4; round++ {
+				next := cur * int64(rng.Range(2, 4))
+				if rng.Chance(1, 3) && cur > 4 {
+					next = cur / 2
+				}
+				val := fmt.Sprintf(`{"denom":%q,"amount":"%d"}`, vDenom, next)
+				if err := h.Gov(rng.Intn(3), dtypes.ModuleName, "DeploymentMinDeposit", val); err != nil {
+					res.Inconclusive("parameter change refused: " + err.Error())
+					return
+				}
+				if rng.Chance(1, 3) {
+					h.Restart()
+					res.Count("restart_after_parameter_change", 1)
+				}
+				lo, hi := cur, next
+				if lo > hi {
+					lo, hi = hi, lo
+				}
+				probe("old minimum after the change", cur)
+				probe("new minimum - 1", next-1)
+				probe("new minimum", next)
+				probe("between old and new", lo+(hi-lo)/2)
+				cur = next
+			}
+		})
+	})
+}
+
 func TestVerif_C19(t *testing.T) {
 	res := vs.NewResult("C19", "exploration",
 		"(a) boundary sweep: every single choice {min-1,min,max,max+1} of each per-unit bound, group totals at max-1/max/max+1 reached with counts 1/2/50, 0/1/20/21 units, 0/1/20/21/40 groups, duplicate/empty names, all 117 arrangements of 2..4 group names over a 3-name alphabet, out-of-range units (negative, beyond 2^64) offset by a sibling unit, nil and >2^64 and negative resource values, price and deposit variations, version lengths, and all unordered pairs of two choices, each as a signed create-deployment through ValidateBasic and DeliverTx; alarm when admitted although the big-integer limits table says no, or when a rejection leaves any effect; (b) after every tx of random full-application histories every stored deployment/group must satisfy the table. distinct = (admitted?, set of violated limits)")
 	res.Assume("limits transcribed from the documented constants (cpu 10..10000 milli, memory 1Mi..16Gi, storage 5Mi..1Ti, count 1..50, unit price 1..10^7 uakt, <=20 units/group, <=20 groups, totals cpu<=20000, memory<=32Gi, storage<=1Ti, 32-byte version, deposit >= DeploymentMinDeposit)")
 	for _, f := range []string{"admitted", "rejected_beyond_limits", "stored_groups_checked", "stored_deployments_checked", "rejected:unit-cpu", "rejected:unit-memory", "rejected:unit-storage", "rejected:unit-count", "rejected:unit-price", "rejected:price-denom",
-		"rejected:group-total-cpu", "rejected:group-total-memory", "rejected:group-total-storage", "rejected:units>max", "rejected:groups>max", "rejected:groups<1", "rejected:group-name-duplicate", "rejected:group-name-empty", "rejected:version-length", "rejected:deposit"} {
+		"rejected:group-total-cpu", "rejected:group-total-memory", "rejected:group-total-storage", "rejected:units>max", "rejected:groups>max", "rejected:groups<1", "rejected:group-name-duplicate", "rejected:group-name-empty", "rejected:version-length", "rejected:deposit", "minimum_deposit_changed_by_the_network", "restart_after_parameter_change"} {
 		res.Floor(f, 1)
 	}
 	vRunChainCheck(t, res, vChainOpts{Histories: [2]int{60, 3000}, Templates: 2, RandomSteps: 40,
@@ -564,6 +637,7 @@ func TestVerif_C19(t *testing.T) {
 		Extra: func(res *vs.Result) {
 			if vs.ReplayFile() == "" {
 				vC19Sweep(t, res)
+				vC19ParamChanges(res)
 			}
 		},
 	}, func() []vMonitor {
